@@ -866,6 +866,12 @@ func (graph *Graph) watchNode(sn ISentinel, input INode) error {
 			return err
 		}
 	}
+	// A sentinel is started by the node it watches entering the graph
+	// (becameNecessaryRecursive queues it). A node that is in the graph already will not
+	// enter it again: a sentinel attached to it was never queued and its predicate never ran.
+	if input.Node().inGraph {
+		graph.recomputeHeap.addIfNotPresent(sn)
+	}
 	return nil
 }
 
